@@ -1,5 +1,5 @@
 SPECIFICATION Spec
-CONSTANTS Mode = "reverse"  Variant = "ok"  Family = "sweep"  List = { }  Steps = 3
+CONSTANTS Mode = "reverse"  Variant = "ok"  Family = "sweep"  List = { }  Steps = 3  PairMod = 1
           Extra = { 1000, 1001, 1002, 1003, 1102, 1013, 1113 }
 INVARIANT TypeOK
 INVARIANT WallsHold
